@@ -337,8 +337,19 @@ func (st *c11State) state() string {
 	if r, err := st.rig.GW.GetByIndex(context.Background(), &hydrapb.GetByIndexRequest{IslandID: 1, SwampName: st.swamp,
 		IndexType: hydrapb.IndexType_EXPIRATION_TIME, OrderType: hydrapb.OrderType_ASC, From: 0, Limit: 0}); err == nil && r != nil {
 		ks := make([]string, len(r.GetTreasures()))
-		for i, t := range r.GetTreasures() {
+		ts := r.GetTreasures()
+		for i, t := range ts {
 			ks[i] = t.GetKey()
+		}
+		// records with the same expiration time have no specified order among themselves: each run of equal times
+		// is printed sorted by key
+		for i := 0; i < len(ts); {
+			j := i + 1
+			for j < len(ts) && ts[j].GetExpiredAt().AsTime().Equal(ts[i].GetExpiredAt().AsTime()) {
+				j++
+			}
+			sort.Strings(ks[i:j])
+			i = j
 		}
 		idx = "[" + strings.Join(ks, ",") + "]"
 	}
